@@ -4,5 +4,6 @@ CONSTANTS
   NtC = {2,4}
   Sp = {1,2}
   Midpoint = FALSE
+  HPer = 0
   EmitTables = FALSE
 INVARIANTS P_Copies P_Const P_Convex P_LinearMid PX_Copies PX_Const PX_Convex PX_LinearMid FI_Copies FI_Const FI_CubicR FI_CubicT FI_RowKinds FI_LinearFallbackMid
